@@ -32,12 +32,15 @@ type domSpec struct {
 	NonNil   map[string]bool     // value paths the domain guarantees non-nil
 	IntDom   map[string][2]int64 // integer parameter -> inclusive interval of its value
 	FieldLen map[string][2]int64 // Struct.Field (by type, whatever the access path) -> interval of its length
-	FieldInt map[string][2]int64 // Struct.Field -> interval of its integer value
-	Fits     bool                // "the value fits its wire field": a test X > 2^(8n)-1 (n = 1, 2, 4) is outside the domain
-	CallVals map[string][]int64  // method name -> the values its result takes on the domain (e.g. Type() of the one payload kind in scope)
-	LookupOK map[string]string   // callee -> why a nil result is outside the domain
-	EnvErr   map[string]string   // callee (full name, or "method:<name>") -> why its failure is outside the domain or decided elsewhere
-	Rel      func(f *FA) []Fact  // further (relational) facts of the domain, built on the function's own values
+	// FieldLenBase, if set, restricts FieldLen to loads from objects it accepts (the object a datagram was
+	// decoded into, as opposed to one a later step returned)
+	FieldLenBase func(base ssa.Value) bool
+	FieldInt     map[string][2]int64 // Struct.Field -> interval of its integer value
+	Fits         bool                // "the value fits its wire field": a test X > 2^(8n)-1 (n = 1, 2, 4) is outside the domain
+	CallVals     map[string][]int64  // method name -> the values its result takes on the domain (e.g. Type() of the one payload kind in scope)
+	LookupOK     map[string]string   // callee -> why a nil result is outside the domain
+	EnvErr       map[string]string   // callee (full name, or "method:<name>") -> why its failure is outside the domain or decided elsewhere
+	Rel          func(f *FA) []Fact  // further (relational) facts of the domain, built on the function's own values
 	// ExactLenField: the domain guarantees len(parameter i) == receiver.<field> (justified by the named rule)
 	ExactLenParam int
 	ExactLenField string
@@ -215,7 +218,7 @@ func (d *domAn) domFacts(f *FA, spec *domSpec) []Fact {
 			if v, ok := ins.(ssa.Value); ok {
 				add(v)
 				if fk, isF := fieldKeyOfLoad(v); isF {
-					if iv, ok := spec.FieldLen[fk]; ok {
+					if iv, ok := spec.FieldLen[fk]; ok && (spec.FieldLenBase == nil || fieldLenBaseOK(spec, v)) {
 						l := f.SliceLen(v)
 						out = append(out, Fact{L: l.add(konst(iv[0]), -1)})
 						if iv[1] < INF {
@@ -255,6 +258,11 @@ func (d *domAn) domFacts(f *FA, spec *domSpec) []Fact {
 }
 
 // factRefuted: the facts contradict g.
+func fieldLenBaseOK(spec *domSpec, v ssa.Value) bool {
+	base, _, ok := fieldLoad(v)
+	return ok && spec.FieldLenBase(base)
+}
+
 func factRefuted(f *FA, g Fact, facts []Fact) bool {
 	if g.NE {
 		a, _ := f.Prove(g.L, facts)
@@ -533,6 +541,41 @@ func (d *domAn) guardRefuted(x *domFn, p *ssa.BasicBlock, succ int) (bool, strin
 		}
 		return true, why
 	}
+	// comparison of a method result the standard library's documentation pins (cipher.Block from crypto/aes has block size 16)
+	if bo.Op == token.EQL || bo.Op == token.NEQ {
+		for _, pr := range [][2]ssa.Value{{bo.X, bo.Y}, {bo.Y, bo.X}} {
+			call, ok := pr[0].(*ssa.Call)
+			k, ok2 := pr[1].(*ssa.Const)
+			if !ok || !ok2 || k.Value == nil || !call.Call.IsInvoke() {
+				continue
+			}
+			kv, isInt := constInt64(k.Value)
+			if !isInt {
+				continue
+			}
+			recv := call.Call.Value
+			if s := storedInto(fn, recv); s != nil {
+				recv = s
+			}
+			src := callOf(recv)
+			if src == nil {
+				continue
+			}
+			cal := src.Call.StaticCallee()
+			if cal == nil {
+				continue
+			}
+			want, ok := libResultContracts[cal.String()+"."+call.Call.Method.Name()]
+			if !ok {
+				continue
+			}
+			eqEdge := (bo.Op == token.EQL) == taken
+			if eqEdge == (kv != want) {
+				return true, fmt.Sprintf("%s() of the value returned by %s is %d by the library's documented contract", call.Call.Method.Name(), cal.String(), want)
+			}
+			return false, "`" + text + "` is fixed by the library's documented contract"
+		}
+	}
 	// comparison of a method result the domain pins (e.g. Type() of the only payload kind in scope)
 	if bo.Op == token.EQL || bo.Op == token.NEQ {
 		for _, pr := range [][2]ssa.Value{{bo.X, bo.Y}, {bo.Y, bo.X}} {
@@ -609,6 +652,11 @@ func (d *domAn) guardRefuted(x *domFn, p *ssa.BasicBlock, succ int) (bool, strin
 		return false, "`" + text + "` can hold on the domain"
 	}
 	return false, "`" + text + "` can fail on the domain"
+}
+
+// libResultContracts: "<constructor>.<method>" -> the constant the method returns on every value the constructor yields.
+var libResultContracts = map[string]int64{
+	"crypto/aes.NewCipher.BlockSize": 16, // crypto/aes: "The AES block size in bytes", const BlockSize = 16
 }
 
 type domFn struct {
@@ -1100,7 +1148,10 @@ func (c *Ctx) protectTotality(r *Report, prefix string) {
 	if dd != nil {
 		// a genuine protected datagram decodes to at least its Encrypted payload
 		specs[dd] = &domSpec{ExactLenParam: -1, NonNil: nonNil("ikesaKey", "msg"), EnvErr: codec, LenDom: map[string][2]int64{"msg": {64, INF}},
-			FieldLen: map[string][2]int64{"message.IKEMessage.Payloads": {1, INF}}}
+			FieldLen: map[string][2]int64{"message.IKEMessage.Payloads": {1, INF}},
+			// ... the message the datagram was decoded into (allocated here), not the inner message that
+			// decryptMsg hands back, whose payload list may be empty
+			FieldLenBase: func(base ssa.Value) bool { _, isAlloc := base.(*ssa.Alloc); return isAlloc }}
 	}
 	for _, n := range []string{"verifyIntegrity", "calculateIntegrity", "encryptPayload", "decryptPayload"} {
 		if fn := c.Func("", n); fn != nil {
